@@ -25,10 +25,12 @@ def c13(tier, seed):
     t = 120000 if q else 900000
     jobs = [
         # expected to hold
+        J(MEM, "VerifK13Iterator", n=3, timeout_ms=t),
         J(MEM, "VerifK13Read", api=0, n=n, conds=2, timeout_ms=t),
-        J(MEM, "VerifK13Read", api=1, n=n, conds=1, timeout_ms=t),
+        J(MEM, "VerifK13Read", api=0, n=1 if q else 2, conds=1, drain=1, timeout_ms=t),
+        J(MEM, "VerifK13Read", api=1, n=1 if q else 2, conds=1, timeout_ms=t),
         J(MEM, "VerifK13ReadUserTuple", n=n, conds=2, timeout_ms=t),
-        J(MEM, "VerifK13ReadUsersetTuples", n=n, restr=2, conds=0, timeout_ms=t),
+        J(MEM, "VerifK13ReadUsersetTuples", n=1 if q else 2, restr=2, conds=0, timeout_ms=t),
         J(MEM, "VerifK13ReadStartingWithUser", n=n, users=2, conds=2 if not q else 1, timeout_ms=t),
         # suspicions put to the solver (each isolates one input class)
         J(MEM, "VerifK13ReadUsersetTuples", n=1 if q else 2, restr=1, conds=1, timeout_ms=t),      # H4a: Conditions ignored
